@@ -125,3 +125,36 @@ Proof.
     rewrite E1, E2 in H1. rewrite E1, E3 in H2.
     eapply plane_rejection_raw_2; [reflexivity | exact H1 | exact H2].
 Qed.
+
+(* ---- the exact verdict is invariant under a uniform scaling of the six points ---- *)
+Definition vsc (s : R) (v : rvec) : rvec := (s * vx v, s * vy v, s * vz v).
+Definition tsc (s : R) (t : @tri3 R) : @tri3 R := (vsc s (get3 t 0), vsc s (get3 t 1), vsc s (get3 t 2)).
+
+Lemma orient3_scale s a b c d : orient3 Rops (vsc s a) (vsc s b) (vsc s c) (vsc s d) = s * s * s * orient3 Rops a b c d.
+Proof.
+  destruct a as [[ax ay] az], b as [[bx by_] bz], c as [[cx cy] cz], d as [[dx dy] dz].
+  unfold orient3, vsc. cbv [vdot vsub vcross vx vy vz mkv fst snd]. rops. ring.
+Qed.
+
+Lemma sgn_scale s x : 0 < s -> sgn Rops (s * s * s * x) = sgn Rops x.
+Proof.
+  intro Hs. assert (H3 : 0 < s * s * s) by (apply Rmult_lt_0_compat; [apply Rmult_lt_0_compat|]; auto).
+  unfold sgn, lt, gt. rops.
+  destruct (Rltb x 0) eqn:E1.
+  - apply Rltb_true in E1. assert (s * s * s * x < 0) by nra. rewrite (proj2 (Rltb_true _ _) H). reflexivity.
+  - apply Rltb_false in E1. assert (0 <= s * s * s * x) by nra. rewrite (proj2 (Rltb_false _ _) H).
+    destruct (Rltb 0 x) eqn:E2.
+    + apply Rltb_true in E2. assert (0 < s * s * s * x) by nra. rewrite (proj2 (Rltb_true _ _) H0). reflexivity.
+    + apply Rltb_false in E2. assert (s * s * s * x <= 0) by nra. rewrite (proj2 (Rltb_false _ _) H0). reflexivity.
+Qed.
+
+Lemma seg_tri_scale s a b u v w : 0 < s ->
+  seg_tri Rops (vsc s a) (vsc s b) (vsc s u) (vsc s v) (vsc s w) = seg_tri Rops a b u v w.
+Proof. intro Hs. unfold seg_tri. rewrite !orient3_scale, !sgn_scale by auto. reflexivity. Qed.
+
+(* scaling all six points by s > 0 preserves the exact intersection verdict (and its "no clearance" answer) *)
+Lemma isect_oracle_scale : forall s t1 t2, 0 < s -> isect_oracle Rops (tsc s t1) (tsc s t2) = isect_oracle Rops t1 t2.
+Proof.
+  intros s [[p1 q1] r1] [[p2 q2] r2] Hs. unfold isect_oracle, tsc. cbv [get3 fst snd].
+  rewrite !seg_tri_scale by auto. reflexivity.
+Qed.
